@@ -35,6 +35,7 @@ theorem Stage2R.basic {pt : PT} (h : Stage2R pt) : BasicW pt := by
     | const => exact BasicW.const hb
     | func => exact BasicW.func hb
     | table => exact BasicW.table hb
+    | point => exact BasicW.point hb
     | atomicMulti _ => exact BasicW.atomicMulti hb
   | seq _ ih => exact BasicW.seq ih
   | rep _ ih => exact BasicW.rep ih
